@@ -1,4 +1,5 @@
 import MindsVerif.Model.ModelJoin
+import MindsVerif.Model.JoinKind
 /-! Line protocol driver for the table–model join planner model (C14).
 
 input (space separated tokens; strings are `~` + percent-encoded text):
@@ -12,7 +13,10 @@ input (space separated tokens; strings are `~` + percent-encoded text):
   target  ::= - | str
   using   ::= - | G n (key value)*
   expr    ::= C n qual* name | K v | P v | B op l r | W a b c | U op e | F name n arg* | O tag | S nsteps
-output: steps separated by " | ", or `exc:PlanningException` / `exc:NotImplementedError` -/
+output: steps separated by " | ", or `exc:PlanningException` / `exc:NotImplementedError`
+
+a line `JK str` asks for the classification of one join-type string (Model/JoinKind.lean):
+output `class=<semClass>;kind=<first word>;keepsRight=..;padsRight=..;padsLeft=..;limitLeft=..;respects=..` -/
 open MindsVerif.ModelJoin
 
 def hexVal (c : Char) : Nat :=
@@ -246,8 +250,16 @@ partial def showStep : Step → String
     let so : Option String → String := fun | none => "-" | some v => enc v
     s!"query(in={i.show};w={showOptE w};limit={so li};offset={so off})"
 
+def showJoinKind (jt : String) : String :=
+  let k := codeFlags jt
+  s!"class={(semClass jt).name};kind={enc (joinKind jt)};keepsRight={k.keepsRight};padsRight={k.padsRight};" ++
+    s!"padsLeft={k.padsLeft};limitLeft={k.limitLeft};respects={respects jt}"
+
 def handle (line : String) : String :=
-  match rdQuery ((line.trimAscii.toString.splitOn " ").filter (· ≠ "")) with
+  match (line.trimAscii.toString.splitOn " ").filter (· ≠ "") with
+  | ["JK", t] => showJoinKind (dec t)
+  | toks =>
+  match rdQuery toks with
   | none => "bad-line"
   | some (q, cat) =>
     showRoute cat q.ops ++ " || " ++
